@@ -224,7 +224,7 @@ def dag_spec(draw, *, min_nodes: int = 1, max_nodes: int = 8, types=None, fail_m
              backends=('controlled',), max_workers=(1, 2, 3, None), dup_bias: bool = False,
              allow_fresh_same_parent: bool = True, pre_cache: bool = True, bust: bool = True,
              continue_on_failure=(True,), noread_rate: int = 0, wide: bool = False, contexts: bool = True,
-             schedule_len: int = 40, max_refs: int = 4, storages=('local',)):
+             schedule_len: int = 40, max_refs: int = 4, storages=('local',), req_many: bool = False):
     types = list(types or DEFAULT_TYPES)
     n = draw(st.integers(min_nodes, max_nodes))
     nodes = []
@@ -249,11 +249,18 @@ def dag_spec(draw, *, min_nodes: int = 1, max_nodes: int = 8, types=None, fail_m
                       'deps': draw(dep_shape(avail, max_refs=max_refs, dup_bias=dup_bias,
                                              allow_fresh_same_parent=allow_fresh_same_parent))})
     # requested: non-empty multiset, biased to include the last node(s)
-    k = draw(st.integers(1, min(4, n)))
     req = []
-    for _ in range(k):
-        j = draw(st.one_of(st.just(n - 1), st.integers(0, n - 1)))
-        req.append({'ref': j, 'fresh': draw(st.integers(0, 3 if not dup_bias else 1)) == 0})
+    if req_many and draw(st.integers(0, 3)) > 0:
+        # many top-level tasks at once (what makes limits bind): most nodes, in a generated order
+        order = draw(st.permutations(list(range(n))))
+        keep = draw(st.integers(max(1, n // 2), n))
+        for j in order[:keep]:
+            req.append({'ref': j, 'fresh': draw(st.integers(0, 5)) == 0})
+    else:
+        k = draw(st.integers(1, min(4, n)))
+        for _ in range(k):
+            j = draw(st.one_of(st.just(n - 1), st.integers(0, n - 1)))
+            req.append({'ref': j, 'fresh': draw(st.integers(0, 3 if not dup_bias else 1)) == 0})
     lab = {
         'backend': draw(st.sampled_from(list(backends))),
         'max_workers': draw(st.sampled_from(list(max_workers))),
